@@ -48,6 +48,7 @@ Definition must_reject (class : str) : list str :=
   else if seqb class (B "apk-signature-without-key-name-and-maintainer") then [P_apk]
   else if seqb class (B "apk-signature-callback-without-key-name-and-maintainer") then [P_apk]
   else if seqb class (B "tree-holds-a-socket") then c06_formats
+  else if seqb class (B "override-block-script-missing") then c06_formats
   else if seqb class (B "config-source-missing") then c06_formats
   else if seqb class (B "config-noreplace-source-missing") then c06_formats
   else if seqb class (B "config-missingok-source-missing") then c06_formats
